@@ -146,6 +146,11 @@ func cmdCheck(args []string) int {
 		return reportLoadFailure(*prop, *verifDir, *evidence, *tier, err, t0)
 	}
 	v.specs = specs
+	for _, k := range loadKnown(filepath.Join(*verifDir, "known_findings.txt")) {
+		if k.Kind == "finding" {
+			v.knownPatterns = append(v.knownPatterns, k.Obligation)
+		}
+	}
 	tLoad := time.Since(t0).Seconds()
 
 	var obls []*Obligation
@@ -220,9 +225,11 @@ func cmdCheck(args []string) int {
 
 	reg := loadRegistry(*verifDir)
 	known := loadKnown(filepath.Join(*verifDir, "known_findings.txt"))
+	// a listed finding is matched by obligation name whatever property is being checked: the failing clause of a callee
+	// shows up in every property whose proof uses that callee's contract
 	var knownList []knownFinding
 	for _, k := range known {
-		if k.Kind == "finding" && (k.Property == *prop || *prop == "") {
+		if k.Kind == "finding" {
 			knownList = append(knownList, k)
 		}
 	}
